@@ -6,6 +6,7 @@ package main
 // as the property says.
 
 import (
+	"bufio"
 	"context"
 	"fmt"
 	"net"
@@ -28,6 +29,7 @@ var probes = map[string]func() (string, *failure){
 	"slow-subscriber":         probeSlowSubscriber,
 	"overlap-lock-cycle":      probeOverlapLockCycle,
 	"stop-waits-teardown":     probeStopWaitsTeardown,
+	"terminate-vs-reconnect":  probeTerminateVsReconnect,
 }
 
 func probeNames() []string {
@@ -726,4 +728,80 @@ func probeStopWaitsTeardown() (string, *failure) {
 		return "", f
 	}
 	return fmt.Sprintf("teardown_hooks=%d stop_ms=%.1f", begun-begun0, float64(el)/1e6), nil
+}
+
+// dialSP: CONNECT and report the Session Present flag of the CONNACK
+func dialSP(addr, id string, clean bool, bound time.Duration) (*mclient, bool, error) {
+	conn, err := net.DialTimeout("tcp", addr, bound)
+	if err != nil {
+		return nil, false, err
+	}
+	c := &mclient{conn: conn, br: bufio.NewReader(conn), id: id, waiters: map[uint32]chan *pkt{}, dead: make(chan struct{})}
+	go c.readLoop()
+	p, err := c.request(connectPacket(false, id, clean, 0), tCONNACK, 0, bound)
+	if err != nil {
+		c.closeAbrupt()
+		return nil, false, fmt.Errorf("CONNECT %s: %w", id, err)
+	}
+	if len(p.body) < 2 || p.body[1] != 0 {
+		c.closeAbrupt()
+		return nil, false, fmt.Errorf("CONNECT %s refused: % x", id, p.body)
+	}
+	return c, p.body[0]&1 == 1, nil
+}
+
+// C05 under a schedule the wire suites cannot produce (they let every step finish): an administrative termination
+// of an online session, and a CONNECT with the same client id that arrives while the terminated connection is still
+// tearing down (an OnClosed hook of 300 ms).  The newcomer must wait for the old connection, find no session
+// (Session Present 0), stay the one registered connection of the id afterwards, and be displaced by a third CONNECT.
+func probeTerminateVsReconnect() (string, *failure) {
+	bound := *flagWatchdog
+	b, f := startBroker(nil)
+	if f != nil {
+		return "", f
+	}
+	deadline := time.Now().Add(3 * time.Second)
+	for atomic.LoadInt64(&b.plg.closedBegin) != atomic.LoadInt64(&b.plg.closedEnd) || b.srv.ClientService().GetClient("bootstrap") != nil {
+		if time.Now().After(deadline) {
+			return "", failf("watchdog", "the bootstrap connection did not finish closing within 3s")
+		}
+		time.Sleep(10 * time.Millisecond)
+	}
+	const id = "tvr"
+	c1, sp1, err := dialSP(b.addr, id, false, bound)
+	if err != nil {
+		return "", failf("watchdog", "first CONNECT: %v", err)
+	}
+	if sp1 {
+		return "", failf("session", "Session Present 1 on the very first CONNECT of %s", id)
+	}
+	atomic.StoreInt64(&b.plg.closedDelay, int64(300*time.Millisecond))
+	b.srv.ClientService().TerminateSession(id)
+	c2, sp2, err := dialSP(b.addr, id, false, bound)
+	atomic.StoreInt64(&b.plg.closedDelay, 0)
+	if err != nil {
+		return "", failf("watchdog", "CONNECT during the tear-down of the terminated connection: %v", err)
+	}
+	if sp2 {
+		return "", failf("session", "CONNECT (Clean Start 0) right after TerminateSession(%s) was answered Session Present 1: the terminated session was resumed", id)
+	}
+	if !c1.waitDead(2 * time.Second) {
+		return "", failf("leak", "the connection of the terminated session is still open 2s later")
+	}
+	time.Sleep(500 * time.Millisecond) // the old tear-down is over by now
+	if b.srv.ClientService().GetClient(id) == nil {
+		return "", failf("session", "the connection that was acknowledged after TerminateSession(%s) is no longer registered once the old tear-down has finished (its socket is still served)", id)
+	}
+	if _, err := c2.request(pingreqPacket(), tPINGRESP, 0, bound); err != nil {
+		return "", failf("watchdog", "the second connection does not answer PINGREQ: %v", err)
+	}
+	c3, _, err := dialSP(b.addr, id, false, bound)
+	if err != nil {
+		return "", failf("watchdog", "third CONNECT: %v", err)
+	}
+	if !c2.waitDead(2 * time.Second) {
+		return "", failf("session", "two connections are attached to client id %s: the second one was not displaced by the third CONNECT", id)
+	}
+	c3.closeAbrupt()
+	return finish(b, bound, "terminate-vs-reconnect")
 }
